@@ -50,6 +50,9 @@ def marshaller(
     if not nodes:
         return routines.NoOpMarshaller(t=t, context=context, var=None)  # type: ignore[arg-type]
 
+    # `Any` has no node in the graph, yet containers of `Any` look their member routine up.
+    context[tp.Any] = routines.NoOpMarshaller(tp.Any, context=context, var=None)  # type: ignore[arg-type]
+
     # "root" type will always be the final node in the sequence.
     root = nodes[-1]
     for node in nodes:
